@@ -28,6 +28,15 @@ import (
 //        the same with the placement fields XYoffset / X / Y of the message set (where a panel puts the image on its
 //        display; the conversions must not read them: routines agree, centred placement on the target canvas)
 //   pix.obj op...                       | one token per call          (ONE MonoImg used more than once; see objOp)
+//   pix.seq par step...                 | <tokens of every step, printed right after its call> <the same, printed at the end>
+//        several conversions one after the other, the caller keeping every result (slices, image objects, PNG bytes) while
+//        the later calls run; each result is printed twice: right after its own call and again after the last call
+//        (the PNG bytes are decoded then).  What an earlier call returned must not change when a later call runs.
+//          G:type:W:H:tw:th:data       the four results of pix.gfx                      -> A B C P
+//          M:same:w:h:pc:bc:inv:bits   CreateFromBytes on a fresh object (same=1: on the object of the previous M step),
+//                                      both colours set, then GetImgSliceRGB, GetImgSliceGray, ConvertToImage(inv),
+//                                      GetImgSlice                                      -> pixel16 bckg16 rgb gray IMG bytes
+//        par=1: the whole sequence runs in two goroutines at the same time (each keeps its own results)
 // an image is printed as one token  <w>x<h>:<RGBA hex, row major>  (`-` for no pixels)
 
 type pixExec struct{}
@@ -176,6 +185,30 @@ func (e *pixExec) Exec(cmd string, a []string) string {
 				outs[i] = objOp(img, op)
 			}
 			res = strings.Join(outs, " ")
+		case "pix.seq":
+			if atoi(a[0]) == 1 {
+				outs := [2]string{}
+				done := make(chan int, 2)
+				for i := range outs {
+					go func(i int) {
+						defer func() { done <- i }()
+						if p := guarded(func() { outs[i] = pixSeq(a[1:]) }); p != "" {
+							outs[i] = p
+						}
+					}(i)
+				}
+				<-done
+				<-done
+				res = outs[0]
+				if outs[1] != res && !strings.HasPrefix(res, "panic") {
+					res = outs[1]
+				}
+			} else {
+				res = pixSeq(a[1:])
+			}
+			if strings.HasPrefix(res, "panic") {
+				panic(strings.TrimPrefix(res, "panic:"))
+			}
 		case "pix.gfx", "pix.gfxo":
 			t, W, H, tw, th := atoi(a[0]), atoi(a[1]), atoi(a[2]), atoi(a[3]), atoi(a[4])
 			data := unhx(a[len(a)-1])
@@ -211,6 +244,71 @@ func (e *pixExec) Exec(cmd string, a []string) string {
 		return p
 	}
 	return res
+}
+
+// the steps of a pix.seq record: every result is kept by the caller and printed right after its call and again at the end
+func pixSeq(steps []string) string {
+	imm := []string{}
+	late := []func() string{}
+	var shared *monogfx.MonoImg
+	for _, st := range steps {
+		f := strings.Split(st, ":")
+		var tok func() string
+		switch f[0] {
+		case "G":
+			t, W, H, tw, th, data := atoi(f[1]), atoi(f[2]), atoi(f[3]), atoi(f[4]), atoi(f[5]), unhx(f[6])
+			mk := func() *rwp.HWCGfx {
+				return &rwp.HWCGfx{ImageType: rwp.HWCGfx_ImageTypeE(t), W: uint32(W), H: uint32(H), ImageData: append([]byte{}, data...)}
+			}
+			var A image.Image
+			switch rwp.HWCGfx_ImageTypeE(t) {
+			case rwp.HWCGfx_RGB16bit:
+				A = helpers.CreateImgObjectFromRGBBytes(W, H, append([]byte{}, data...))
+			case rwp.HWCGfx_Gray4bit:
+				A = helpers.CreateImgObjectFromGrayBytes(W, H, append([]byte{}, data...))
+			}
+			B := helpers.RwpImgToImage(mk(), W, H)
+			C := helpers.RwpImgToImage(mk(), tw, th)
+			pb, err := helpers.ConvertGfxStateToPngBytes(&rwp.HWCState{HWCGfx: mk()})
+			tok = func() string {
+				a, p := "none", "nopng"
+				if A != nil {
+					a = imgTok(A)
+				}
+				if err != nil {
+					p = "error"
+				} else if im, derr := png.Decode(bytes.NewReader(pb)); derr == nil {
+					p = imgTok(im)
+				}
+				return a + " " + imgTok(B) + " " + imgTok(C) + " " + p
+			}
+		case "M":
+			same, w, h, pc, bc, inv := abool(f[1]), atoi(f[2]), atoi(f[3]), atoi(f[4]), atoi(f[5]), abool(f[6])
+			img := shared
+			if !same || img == nil {
+				img = &monogfx.MonoImg{}
+			}
+			shared = img
+			if err := img.CreateFromBytes(w, h, append([]byte{}, unhx(f[7])...)); err != nil {
+				panic("harness: bit pattern shorter than the canvas")
+			}
+			img.SetOLEDPixelColor(pc)
+			img.SetOLEDBckgColor(bc)
+			p16, b16 := img.OLEDPixelColor, img.OLEDBckgColor
+			rgb, gray, im, sl := img.GetImgSliceRGB(), img.GetImgSliceGray(), img.ConvertToImage(inv), img.GetImgSlice()
+			tok = func() string {
+				return fmt.Sprintf("%d %d %s %s %s %s", p16, b16, hx(rgb), hx(gray), imgTok(im), hx(sl))
+			}
+		default:
+			panic("unknown step " + st)
+		}
+		imm = append(imm, tok())
+		late = append(late, tok)
+	}
+	for _, tok := range late {
+		imm = append(imm, tok())
+	}
+	return strings.Join(imm, " ")
 }
 
 // ---- generators ----
@@ -375,6 +473,61 @@ func genPixObj(r *Rng, maxW, maxH int) {
 	emit("pix.obj", args...)
 }
 
+// ---- several conversions in a row, every result kept: what an earlier call returned stays as it was ----
+//
+// 2-4 steps.  A step after the first is mostly of the same kind, format and declared size as the one before with flatter
+// (one constant byte), other, or shorter data, or of a smaller size: whatever the later call produces fits into the space
+// the earlier result occupies (a buffer kept between calls is re-used exactly then).
+func genPixSeq(r *Rng, maxW, maxH int) {
+	steps := []interface{}{b01(r.Chance(25))}
+	flat := func(n int) []byte {
+		b := make([]byte, n)
+		c := byte(r.Pick(0, 0xFF, 0x0F, 0xF8, r.Intn(256)))
+		for i := range b {
+			b[i] = c
+		}
+		return b
+	}
+	kind, t, W, H := -1, 0, 0, 0
+	for k, n := 0, r.Range(2, 4); k < n; k++ {
+		fresh := kind < 0 || r.Chance(15)
+		if fresh {
+			kind, t = r.Pick(0, 0, 0, 1), r.Intn(3)
+			W, H = r.Range(1, maxW), r.Range(1, maxH)
+			if r.Chance(5) {
+				W, H = r.Pick(0, 1, W), r.Pick(0, 1, H)
+			}
+		} else if r.Chance(20) {
+			W, H = r.Range(minInt(1, W), W), r.Range(minInt(1, H), H) // smaller
+		}
+		need := gfxNeed(t, W, H)
+		if kind == 1 {
+			need = wib(W) * H
+		}
+		var data []byte
+		switch {
+		case fresh || r.Chance(25):
+			data = r.Bytes(need) // busy
+		case r.Chance(70):
+			data = flat(need)
+		default:
+			data = gfxData(r, need)
+		}
+		if kind == 0 {
+			switch r.Intn(8) {
+			case 0:
+				data = data[:r.Range(0, need)]
+			case 1:
+				data = append(data, r.Bytes(r.Range(1, 9))...)
+			}
+			steps = append(steps, fmt.Sprintf("G:%d:%d:%d:%d:%d:%s", t, W, H, target(r, W), target(r, H), hx(data)))
+		} else {
+			steps = append(steps, fmt.Sprintf("M:%s:%d:%d:%d:%d:%s:%s", b01(r.Chance(40)), W, H, r.Intn(64), r.Intn(64), b01(r.Bool()), hx(data)))
+		}
+	}
+	emit("pix.seq", steps...)
+}
+
 func genC17(r *Rng, n int, tier string) {
 	thorough := tier == "thorough"
 	maxW, maxH := 24, 12
@@ -438,6 +591,10 @@ func genC17(r *Rng, n int, tier string) {
 	// one object used for several images: colours set before / after (re)creation, conversions into a used destination
 	for i := 0; i < n/2; i++ {
 		genPixObj(r, 24, 12)
+	}
+	// several conversions in a row with every result kept by the caller (slices, image objects, PNG bytes)
+	for i := 0; i < n/2; i++ {
+		genPixSeq(r, 24, 12)
 	}
 	// (4) graphics states. Small images: every data length from 0 to two bytes more than needed.
 	sw, sh := 6, 3
